@@ -81,6 +81,8 @@ func init() {
 		// absent => ErrNotFound; present => nil or some other (I/O, decode) error
 		st.assume(mkImp(mkNot(present), mkEq(err.S, notFound)))
 		st.assume(mkImp(present, mkNot(mkEq(err.S, notFound))))
+		// ... and that other error does not wrap ErrNotFound either
+		st.assume(mkImp(present, mkNot(x.errIs(st, err.S, notFound))))
 		// destination written only on success
 		old := x.load(st, p, pos)
 		x.store(st, p, x.iteValue(st, mkEq(err.S, "0"), val, old), pos)
